@@ -1176,3 +1176,78 @@ def r_pyx_input_cache(ctx, repo):
             rule.fail('%s|%s' % (f.qualname, what), f.module.rel, f.node.lineno, f.qualname, what,
                       'the C input handler no longer %s: what libyaml receives depends on the sizes of the pieces read() returns' % what)
     return rule
+
+
+# ======================================================================================================================
+# R-DECODE-ERROR-INDEX: the offsets of a UnicodeDecodeError index the very object that was decoded
+# ======================================================================================================================
+
+def r_decode_error_index(ctx, repo):
+    """`except UnicodeDecodeError as exc: X[exc.start]` is total only when X is the bytes object whose decoding raised exc:
+    exc.start lies inside exc.object.  That needs (i) X to be the (unmodified) first argument of the decoding call in the
+    try body, and (ii) the decoder to be stateless - an incremental decoder object prepends bytes it kept from earlier calls,
+    so its offsets refer to a buffer the caller does not have (IndexError at the end of input / after a split character)."""
+    rule = ctx.rule('R-DECODE-ERROR-INDEX', 'an object subscripted with the offsets of a caught UnicodeDecodeError is the first '
+                                            'argument of the stateless decoding call that raised it')
+    R = repo.cls('reader.Reader')
+    n_sites = 0
+    for f in live_methods(repo, R):
+        me = self_name(f)
+        for t in walk_function(f.node):
+            if not isinstance(t, ast.Try):
+                continue
+            for h in t.handlers:
+                if h.name is None or h.type is None or 'UnicodeDecodeError' not in norm(h.type):
+                    continue
+                subs = [s for b in h.body for s in ast.walk(b) if isinstance(s, ast.Subscript)
+                        and any(isinstance(x, ast.Attribute) and isinstance(x.value, ast.Name) and x.value.id == h.name
+                                and x.attr in ('start', 'end') for x in ast.walk(s.slice))]
+                if not subs:
+                    continue
+                decs = [c for b in t.body for c in ast.walk(b) if isinstance(c, ast.Call) and c.args
+                        and (is_self_attr(c.func, f, 'raw_decode') or (isinstance(c.func, ast.Attribute) and c.func.attr == 'decode')
+                             or norm(c.func).startswith('codecs.'))]
+                for s in subs:
+                    n_sites += 1
+                    base = norm(s.value)
+                    if base == h.name + '.object':
+                        rule.ok(f.loc(s), '%s indexes the exception\'s own object' % norm(s)[:50])
+                        continue
+                    if len(decs) != 1:
+                        raise AnalysisError('%s: the decoding call guarded by `except UnicodeDecodeError` was not identified' % f.qualname)
+                    c = decs[0]
+                    why = None
+                    if norm(c.args[0]) != base:
+                        why = ('%s is indexed with the offsets of an error raised while decoding %s'
+                               % (base, norm(c.args[0])[:40]))
+                    elif any(isinstance(x, (ast.Assign, ast.AugAssign)) and
+                             any(norm(tg) == base for tg in (x.targets if isinstance(x, ast.Assign) else [x.target]))
+                             for b in t.body + h.body for x in ast.walk(b)):
+                        why = '%s is rebound between the decoding call and the use of the error offsets' % base
+                    elif is_self_attr(c.func, f, 'raw_decode'):
+                        # every value stored in self.raw_decode must be a stateless codec function (codecs.<name>_decode) or None
+                        for g in live_methods(repo, R):
+                            for a in walk_function(g.node):
+                                if isinstance(a, ast.Assign) and any(is_self_attr(tg, g, 'raw_decode') for tg in a.targets):
+                                    v = a.value
+                                    if isinstance(v, ast.Constant) and v.value is None:
+                                        continue
+                                    r = repo.resolve_expr(g.module, v, cls=None) if isinstance(v, (ast.Attribute, ast.Name)) else None
+                                    vt = norm(v)
+                                    if r is not None and r.kind == 'ext' and str(r.obj).startswith('codecs.') and str(r.obj).endswith('_decode'):
+                                        continue
+                                    if vt.startswith('codecs.') and vt.endswith('_decode') and '(' not in vt:
+                                        continue
+                                    why = ('self.raw_decode can be %s (%s:%d), which is not one of the stateless codecs.*_decode '
+                                           'functions: a decoder that keeps bytes between calls reports offsets into its own '
+                                           'buffer, not into %s' % (vt[:50], g.qualname, a.lineno, base))
+                    elif isinstance(c.func, ast.Attribute) and c.func.attr == 'decode' and norm(c.func.value) != base:
+                        why = 'the decoding call is a method of %s, not of the indexed object' % norm(c.func.value)[:40]
+                    if why is None:
+                        rule.ok(f.loc(s), '%s: offsets of an error raised by a stateless decoder on %s itself' % (norm(s)[:40], base))
+                    else:
+                        rule.fail('%s|%s' % (f.qualname, A.anon_text(s, f.node, 60)), f.module.rel, s.lineno, f.qualname, norm(s)[:60],
+                                  why + ': undecodable input can end in IndexError instead of ReaderError')
+    if n_sites == 0:
+        rule.ok('%s' % R.module.rel, 'no handler of UnicodeDecodeError indexes with the error offsets (nothing to check)')
+    return rule
